@@ -22,7 +22,7 @@ type c08Event struct {
 	Batch   []c08Event `json:"batch,omitempty"`
 }
 
-var c08VariantNames = []string{"clean", "syntax", "unused", "undefined", "defglobal", "useglobal", "require", "requiremissing", "annoclass", "useannoclass", "dupkey", "empty", "undefinedB", "requiremissingB", "useglobalB", "dofile", "annoclassdup", "annoclassdup"}
+var c08VariantNames = []string{"clean", "syntax", "unused", "undefined", "defglobal", "useglobal", "require", "requiremissing", "annoclass", "useannoclass", "dupkey", "empty", "undefinedB", "requiremissingB", "useglobalB", "dofile", "annoclassdup", "annoclassdup", "annomixed"}
 
 // c08Variant renders content variant v for file index i of n files.
 func c08Variant(v string, i, n int, layout string) string {
@@ -52,6 +52,9 @@ func c08Variant(v string, i, n int, layout string) string {
 	case "annoclassdup":
 		// the same class name in every file that carries this variant: two such files at once make a duplicate type
 		return fmt.Sprintf("---@class ClsShared\n---@field fs%d number\nlocal ClsShared%d = {}\nreturn ClsShared%d\n", i, i, i)
+	case "annomixed":
+		// a type warning (unknown annotation type) followed, further down, by a malformed annotation line
+		return fmt.Sprintf("---@class Mix%d\n---@field owner NoSuchType%d\nlocal Mix%d = {}\n---@param amount\nfunction Mix%d.f(amount)\n  return amount\nend\nreturn Mix%d\n", i, i, i, i, i)
 	case "useannoclass":
 		return fmt.Sprintf("---@type Cls%d\nlocal v%d = {}\nprint(v%d.fa%d, v%d.nofield%d)\n", nxt, i, i, nxt, i, i)
 	case "dupkey":
